@@ -40,8 +40,30 @@ func GetJsonDataType(t dsl.Type) JsonDataType {
 		return JsonArray
 	}
 
+	if gt.Cases.IsOptional() {
+		// an optional (reached through an alias or a type argument) is written as null or as the value itself
+		return JsonNull | GetJsonDataType(gt.Cases[1].Type)
+	}
+
 	if len(gt.Cases) > 1 {
-		panic("unexpected union type")
+		// a union (reached through an alias or a type argument) is written without tags when the JSON types of
+		// its cases are pairwise distinct, and otherwise as an object with the tag as its only key (null stays null)
+		simplified := true
+		var possibleTypes JsonDataType
+		for _, c := range gt.Cases {
+			caseTypes := GetJsonDataType(c.Type)
+			if caseTypes&possibleTypes != 0 {
+				simplified = false
+			}
+			possibleTypes |= caseTypes
+		}
+		if simplified {
+			return possibleTypes
+		}
+		if gt.Cases.HasNullOption() {
+			return JsonNull | JsonObject
+		}
+		return JsonObject
 	}
 
 	scalarType := gt.Cases[0].Type.(*dsl.SimpleType)
